@@ -19,6 +19,8 @@ import time
 import traceback
 from typing import Any, Dict, List, Optional, Tuple
 
+import networkx as nx
+
 from . import findings
 from .kernel import Sim, Violation, StepCap, derive, merge_counts, cjson
 from .oplist import shrink, write_replay, read_replay
@@ -57,6 +59,9 @@ def load_prop(pid: str):
 # ---------------------------------------------------------------------------
 
 
+_REFUSALS = (ValueError, TypeError, AttributeError, NotImplementedError, nx.NetworkXException)
+
+
 def run_case(prop, case: Dict[str, Any], seed: int, known: Dict[Tuple, str], keep_log: bool = False) -> Dict[str, Any]:
     sim = Sim(seed, keep_log=keep_log, step_cap=getattr(prop, "STEP_CAP", 2_000_000))
     sim.known_sigs = known  # type: ignore[attr-defined]
@@ -85,7 +90,11 @@ def run_case(prop, case: Dict[str, Any], seed: int, known: Dict[Tuple, str], kee
         res["error"] = "StepCap: " + str(e)
     except Exception as exc:
         sut = _sut_exception(exc)
-        if sut is not None:
+        if sut is not None and sim.exotic and isinstance(exc, _REFUSALS):
+            # an unusual input was refused by the library: allowed (the run ends here, nothing wrong was returned)
+            sim.probe("exotic_input_refused:" + str(sim.exotic))
+            sim.event("refused", [str(sim.exotic), type(exc).__name__])
+        elif sut is not None:
             # the library raised on an input / history the property covers: a violation (with replay), not a harness error
             v = Violation(getattr(prop, "PROP", "?"), sut, "unexpected_exception", type(exc).__name__,
                           {"exception": repr(exc)[:300], "traceback_tail": traceback.format_exc()[-900:]})
